@@ -7,6 +7,8 @@
       (`slowPathPacketProcessor.processPacket`, router/dataplane.go).
     Core Lean only.
 
+    One-hop packets are forwarded by `processOHP`, which never looks at the link state (event `ohp`).
+
     Parameter (not modelled): that a packet "would use" an interface, i.e. that `process()` reaches
     `validateEgressUp` with `pkt.egress` = that interface (all earlier checks passed). The engine obtains
     it by running the same packet through a twin data plane without BFD. -/
@@ -96,8 +98,12 @@ inductive Event where
   | recv (ifID : Nat) (remote : St)
   /-- the detection time of the session of that link elapsed -/
   | timeout (ifID : Nat)
-  /-- a packet that came in over a link reporting `ingress` and would leave through `egress` -/
+  /-- a SCION- or EPIC-path packet that came in over a link reporting `ingress` and would leave through
+      `egress` (i.e. `process()` reaches `validateEgressUp` with that egress) -/
   | pkt (ingress egress : Nat)
+  /-- a one-hop-path packet from the internal side that passes every check of `processOHP` and whose
+      first hop leaves through `egress` -/
+  | ohp (egress : Nat)
 deriving Repr
 
 inductive Out where
@@ -140,6 +146,8 @@ def step (s : State) : Event → State × Out
       let s' := { s with links := setSession s.links i timerStep }
       (s', .bfd (sessionOf s' ifID))
   | .pkt ingress egress => (s, egressUp s ingress egress)
+  -- `processOHP` sets `pkt.egress` and returns `pForward` without consulting the link
+  | .ohp egress => (s, .fwd egress)
 
 /-- the trace of a history: every event with the state it was processed in and its output -/
 def run : State → List Event → List (State × Event × Out)
